@@ -6,6 +6,7 @@ import AfkakProofs.BrokerClient.Route
 import AfkakProofs.BrokerClient.Boot
 import AfkakProofs.BrokerClient.BootSingle
 import AfkakProofs.BrokerClient.Equiv
+import AfkakProofs.BrokerClient.Short
 import AfkakProps.Open.C06
 /-!
 # C06 — each request completes exactly once, with the response bearing its own id
@@ -178,6 +179,59 @@ theorem C06_oversize (fs : List Bytes) (hf : ∀ f ∈ fs, f.length < 2 ^ 31) (a
   exact ⟨h1, h2⟩
 
 
+/-- A packet too short to carry a correlation id (0–3 bytes; `get_response_correlation_id` raises
+    `BufferUnderflowError` out of `dataReceived`, the reactor drops the connection).  Like an over-long
+    prefix this terminates the connection, and it FAILS nobody: every request that is not cancelled and
+    was not answered by an earlier packet of the same chunk is still in the table afterwards, unsent,
+    with its serial, id and reply flag (so it is re-sent by `C10_resend_exact`), and nothing fires
+    except the requests answered by those earlier packets. -/
+theorem C06_short_frame (cfg : Cfg) (s : St) (chunk : Bytes)
+    (hu : Ob.raiseUnderflow ∈ (step cfg s (.bytesIn chunk)).2) :
+    (∀ r ∈ s.reqs, r.cancelled = false → (∀ b ∈ (feed s.rbuf chunk).frames, corrId b ≠ some r.id) →
+        { r with sent := false } ∈ (step cfg s (.bytesIn chunk)).1.reqs) ∧
+    (∀ k i res, Ob.fire k i res ∈ (step cfg s (.bytesIn chunk)).2 →
+        ∃ b ∈ (feed s.rbuf chunk).frames, res = .ok b ∧ corrId b = some i) := by
+  simp only [step] at hu ⊢
+  split at hu
+  · simp at hu
+  · split at hu
+    · simp at hu
+    · rename_i c hp hl
+      simp only [hp, hl, Bool.false_eq_true, if_false]
+      obtain ⟨k1, k2⟩ := C06_no_crosstalk (feed s.rbuf chunk).frames s
+      have hobs := handleFrames_obs s (feed s.rbuf chunk).frames
+      have hlostfire : ∀ (s' : St) k i res, Ob.fire k i res ∉ (lostStep s').2 := by
+        intro s' k i res
+        simp only [lostStep, connect_, tryConnect]
+        split <;> (try split) <;> simp
+      split
+      · refine ⟨?_, ?_⟩
+        · intro r hr hc hb
+          have := k1 r hr hb
+          simp only [lostStep, connect_, tryConnect]
+          have hm : { r with sent := false } ∈ ((handleFrames s (feed s.rbuf chunk).frames).1.reqs.filter (fun r => !r.cancelled)).map
+              (fun r => { r with sent := false }) :=
+            List.mem_map.mpr ⟨r, List.mem_filter.mpr ⟨this, by simp [hc]⟩, rfl⟩
+          split <;> (try split) <;> exact hm
+        · intro k i res hm
+          rcases List.mem_append.mp hm with hm | hm
+          · obtain ⟨b, hb, h1, h2, _⟩ := k2 k i res hm
+            exact ⟨b, hb, h1, h2⟩
+          · exact absurd hm (hlostfire _ k i res)
+      · rename_i hr
+        -- no exception escaped: contradiction with `hu`
+        exfalso
+        have hrz := handleFrames_raise (feed s.rbuf chunk).frames s
+        rw [if_neg hr] at hu
+        split at hu
+        · rcases List.mem_append.mp hu with hu | hu
+          · exact hr (hrz hu)
+          · simp at hu
+        · exact hr (hrz hu)
+
+example : Ob.raiseUnderflow ∈ (step ⟨fun _ => 1⟩ (run ⟨fun _ => 1⟩ (St.init 1 9092) [.make 5 true, .connOk]) (.bytesIn [0, 0, 0, 2, 7, 7])).2 := by
+  decide
+
 /-- A reply reaches the request it answers: the routing monitor (a frame that is the first one
     carrying the id of a request written on the current connection, and that echoes that request's
     serial, fires that request or nobody — never a request made later with the same id) accepts
@@ -198,7 +252,7 @@ theorem C06_reentrant_model_conservative (cfg : Cfg) (host port : Nat) (evs : Li
       (Afkak.BrokerClientR.traceRWith cfg fuel (Afkak.BrokerClientR.StR.init host port) (evs.map .flat)).map
           (fun t => Afkak.BrokerClientR.plain t.2)
         = (trace cfg (St.init host port) evs).map (·.2) :=
-  Afkak.BrokerClientR.traceR_flat cfg evs (Afkak.BrokerClientR.StR.init host port) rfl (sinv_init host port)
+  Afkak.BrokerClientR.traceR_flat cfg evs (Afkak.BrokerClientR.StR.init host port) rfl rfl (sinv_init host port)
 
 /-- Bootstrap connection, any number of requests, any event list: every request Deferred fires
     exactly once — with the packet carrying its id, by its own cancel, or with the connection-lost
@@ -293,13 +347,13 @@ example : firedOf (trace ⟨fun _ => 1⟩ (St.init 1 9092) demo) = [0, 1, 2] := 
 closes the client while the queue is being written; the monitor `r06` accepts it, and without callbacks
 the two models agree on `demo`. -/
 example : ((Afkak.BrokerClientR.traceR ⟨fun _ => 1⟩ (Afkak.BrokerClientR.StR.init 1 9092)
-      [.make 1 true none, .make 2 false (some .close), .make 3 true none, .flat .connOk, .flat .lost]).map (·.2)) =
+      [.make 1 true none, .make 2 false (some [.close]), .make 3 true none, .flat .connOk, .flat .lost]).map (·.2)) =
     [[.ob (.connect 1 9092), .made 0 1], [.made 1 2], [.made 2 3],
      [.ob (.write 0 0 1), .ob (.write 0 1 2), .ob (.fire 1 2 .none), .hookBegin 1, .closing, .ob (.lose 0),
       .ob (.fire 2 3 (.err .clientError)), .ob (.fire 0 1 (.err .clientError)), .hookEnd],
      [.ob .down]] := by decide +kernel
 example : r06 (Afkak.BrokerClientR.traceR ⟨fun _ => 1⟩ (Afkak.BrokerClientR.StR.init 1 9092)
-      [.make 1 true none, .make 2 false (some .close), .make 3 true none, .flat .connOk, .flat .lost]) = true := by
+      [.make 1 true none, .make 2 false (some [.close]), .make 3 true none, .flat .connOk, .flat .lost]) = true := by
   decide +kernel
 example : (Afkak.BrokerClientR.traceR ⟨fun _ => 1⟩ (Afkak.BrokerClientR.StR.init 1 9092) (demo.map .flat)).map
       (fun t => Afkak.BrokerClientR.plain t.2) = (trace ⟨fun _ => 1⟩ (St.init 1 9092) demo).map (·.2) := by
@@ -324,6 +378,7 @@ C06_own_response
 C06_no_crosstalk
 C06_reassembly
 C06_oversize
+C06_short_frame
 C06_answered_request
 C06_bootstrap_monitor_sound
 C06_bootstrap_single
